@@ -454,7 +454,7 @@ def show(e, depth=0):
         return "()"
     if t == "arg":
         if len(e) < 3:
-            return str(e[1])
+            return ("arg%s" % e[1]) if isinstance(e[1], int) else str(e[1])
         return e[2] or "arg%d" % e[1]
     if t == "var":
         if len(e) < 3:
